@@ -580,3 +580,9 @@ func (e *Exec) atomicType(holder types.Type, f *types.Var) (types.Type, bool) {
 	}
 	return tv.Type, true
 }
+
+// freshName returns a unique, not yet declared symbol name.
+func (e *Exec) freshName(prefix string) string {
+	e.nfresh++
+	return fmt.Sprintf("%s!%d", prefix, e.nfresh)
+}
